@@ -680,6 +680,15 @@ func (vfs *MemFS) Remove(name string) error {
 		return &fs.PathError{Op: op, Path: name, Err: vfs.err.PermDenied}
 	}
 
+	// the entry may have been removed or replaced since the path was resolved :
+	// the node to remove is the one the name designates now.
+	part := pi.Part()
+
+	child = parent.children[part]
+	if child == nil {
+		return &fs.PathError{Op: op, Path: name, Err: vfs.err.NoSuchDir}
+	}
+
 	child.Lock()
 	defer child.Unlock()
 
@@ -687,11 +696,6 @@ func (vfs *MemFS) Remove(name string) error {
 		if len(c.children) != 0 {
 			return &fs.PathError{Op: op, Path: name, Err: vfs.err.DirNotEmpty}
 		}
-	}
-
-	part := pi.Part()
-	if parent.children[part] == nil {
-		return &fs.PathError{Op: op, Path: name, Err: vfs.err.NoSuchDir}
 	}
 
 	parent.removeChild(part)
